@@ -129,6 +129,41 @@ Definition mem_step (st : memst) (op : mop) : memst * mres :=
       (st, MRBool (match lookup_key k (blobs st) with Some _ => true | None => false end))
   end.
 
+(** ** mappedStore over a user-supplied Store (objects/mapped.go takes any
+    [Store]).  Such a Store may fail, and the interface lets it return the zero
+    result with its error ([UErr]) or a non-zero result TOGETHER with an error
+    ([UBoth]: the bytes it has, the key after storing, [true]).  mappedStore
+    hands a result on only when the error is nil; otherwise the error alone.
+    The Store answering here is this memory store, disturbed for one call. *)
+Inductive ushape := UPlain | UErr (e : N) | UBoth (e : N).
+
+Definition mem_ustep (st : memst) (sh : ushape) (op : mop) : memst * mres :=
+  match sh with
+  | UPlain => mem_step st op
+  | UErr e =>
+      match op with
+      | MpOpen _ | MpHas _ => (st, MRErr e)
+      | MpCreate s =>                       (* the input is read first; Put fails and stores nothing *)
+          match drain s with
+          | (_, REof) => (st, MRErr e)
+          | (_, RFail x) => (st, MRErr x)
+          | (_, RNil) => (st, MRBad)
+          end
+      | _ => mem_step st op
+      end
+  | UBoth e =>
+      match op with
+      | MpOpen _ | MpHas _ => (st, MRErr e)
+      | MpCreate s =>                       (* Put stores, and reports an error with the key *)
+          match drain s with
+          | (_, REof) => (fst (mem_step st op), MRErr e)
+          | (_, RFail x) => (st, MRErr x)
+          | (_, RNil) => (st, MRBad)
+          end
+      | _ => mem_step st op
+      end
+  end.
+
 Fixpoint mem_run (st : memst) (ops : list mop) : memst * list mres :=
   match ops with
   | [] => (st, [])
